@@ -211,11 +211,11 @@ def shards(tier, seed=1):
     n = 1 if q else 8
     out = []
     fams = ["helmholtz", "laplace", "modified"]
-    for fam in (rot(fams, seed, 2) if q else fams):
-        out.append({"check": "hypersingular", "fam": fam, "examples": 14 * n, "budget_s": 260 * n})
+    for fam in fams:  # three different assemblers (laplace/helmholtz/modified_helmholtz hypersingular): all of them in every tier
+        out.append({"check": "hypersingular", "fam": fam, "examples": 20 * n, "budget_s": 260 * n})
     for rep in range(1 if q else 3):
-        out.append({"check": "efield", "examples": 10 * n, "budget_s": 300 * n, "rep": rep})
-    for op in (rot(["E", "M"], seed, 1) if q else ["E", "M"]):
+        out.append({"check": "efield", "examples": 20 * n, "budget_s": 300 * n, "rep": rep})
+    for op in ["E", "M"]:
         out.append({"check": "symmetry", "op": op, "examples": 4 * n, "budget_s": 300 * n})
     return out
 
